@@ -43,6 +43,7 @@ def H(mod):
 TYPES, MVD, RLE, MBK = H("types"), H("decoder::cpu::mvd_pred"), H("decoder::cpu::rle"), H("parser::macroblock")
 GATH = H("decoder::cpu::gather")
 PICT, STAT = H("decoder::picture"), H("decoder::state")
+PPIC = H("parser::picture")
 
 
 def _w(h, name, nbytes, tries=4000):
@@ -64,6 +65,7 @@ VERUS_WITNESS.update({
     ("*", "predict_candidate"): [_w(MVD, "predict_c3_m4", 160, 20000), _w(MVD, "predict_c2_m3", 128, 20000), _w(MVD, "predict_c1_m1", 64, 20000)],
     ("*", "inverse_rle"): [_w(RLE, "single_intra", 5, 100000), _w(RLE, "multi3", 12, 50000)],
     ("*", "into_level"): [_w(TYPES, "intradc", 1, 2000)],
+    ("picture", "*"): [("h263", "parser::picture::verif_hook::replay", "hdr_std_dyn", 80, 300000), ("h263", "parser::picture::verif_hook::replay", "hdr_sor_dyn", 80, 100000)],
 })
 
 
@@ -97,6 +99,10 @@ def kani_harnesses(prop, tier):
             if (w, h) in {(1, 1), (2, 1), (3, 2), (5, 3), (9, 2)} or tier == "thorough":
                 cn = ((w + 1) // 2) * ((h + 1) // 2)
                 hs.append(dict(YUV, name=name, nbytes=w * h + 2 * cn, timeout=900, only_checks=r"^(?!.*post_pixel)", what="yuv420_to_rgba accepts the planes of a %dx%d picture and returns exactly w*h pixels" % (w, h), bound="picture %dx%d" % (w, h)))
+    if prop == "C06":
+        hs.append(dict(PPIC, name="option_mask", nbytes=0, what="R6: picture.rs's *OPPTYPE_OPTIONS == 0x1FF8 on the real lazy_static"))
+        hs.append(dict(PPIC, name="bitflags_model2", nbytes=2, what="A-BITFLAGS: PlusPTypeFollower / SliceSubmode / ReferencePictureSelectionMode operators and constants agree with the `bits` model of the Verus picture unit"))
+        hs.append(dict(STAT, name="bitflags_model", nbytes=9, what="A-BITFLAGS: PictureOption / DecoderOption operators (incl. `|=`, rule R12) agree with the `bits` model"))
     if prop == "C03":
         for n, w in [("lerp_params", "HalfPel::into_lerp_parameters == (floor(v/2), v odd) for every i16 (contract assumed by the Verus gather unit)"),
                      ("chroma_round", "HalfPel::average_sum_of_mvs == Table 16 rounding of sum/8 for every i16 sum"),
@@ -217,6 +223,15 @@ PROPS["C15"] = dict(
     level_text="deductive proof (Verus) with ghost bit accounting over the abstract reader (absolute position rpos): whatever ends the macroblock loop - picture complete, end of data, a start code in Sorenson or standard mode - is NOT consumed (loop `ensures rpos == position at the start of the last iteration`); decode_macroblock / decode_block / decode_gob consume nothing on Err and on Ok(None) (their transaction wrappers are the text of with_transaction*), commit keeps the position; hence after Ok the reader stands at the end of this picture's macroblock data, for every picture, size and history. The start-code search window (< 8 stuffing bits) is the reader contract recognize_start_code (C14)",
     level_note=VERUS_NOTE + "; the concatenation statement over N pictures follows by induction over calls from this per-call contract and C04/C05 (not mechanised as a separate lemma)",
     assumptions=["reader operations by contract (A-READER, C14)", "induction over the picture sequence stated, not mechanised"],
+)
+PROPS["C06"] = dict(
+    level="proof", engine="verus+kani",
+    verus=[dict(unit="picture"), dict(unit="state"), dict(unit="gob")],
+    functions=["h263::parser::picture::{decode_ptype,decode_plusptype,decode_sorenson_ptype,decode_cpm_and_psbi,decode_cpfmt,decode_cpcfc,decode_uui,decode_sss,decode_elnum_rlnum,decode_rpsmf,decode_trpi,decode_bcm,decode_rprp,decode_trb,decode_dbquant,decode_pei,decode_picture}",
+               "h263::parser::gob::decode_gob", "h263::decoder::state::H263State::decode_next_picture (header stored, format fallback)"],
+    level_text="deductive proof (Verus) of the real text of parser/picture.rs against spec functions written in the vocabulary of H.263 5.1 (numbered bits of PTYPE / OPPTYPE / MPPTYPE / CPFMT / ...): each of the 16 field parsers returns exactly the encoded value for ALL field values and consumes exactly the field's bits, rejects wrong markers, inherits OPPTYPE modes when UFEP = 000, PEI loops over any number of bytes (with termination); decode_picture: the complete Sorenson Spark header relation (all size codes incl. 8/16-bit custom sizes, type, deblocking flag, quantizer, extra bytes, exact length) and, in standard mode, panic-freedom, reader frame and field bounds. NOT proved in Verus (solver resource limit, see DESIGN.md): that decode_picture stores each standard-mode field parser's result in the right header field in the right order - this assembly step is exercised only by the native sibling harness hdr_std_dyn (spec encoder round trip), which is exploration, not proof",
+    level_note=VERUS_NOTE + "; derived PartialEq on SourceFormat assumed structural (A-DERIVE-EQ); the recognize_start_code contract (nearest start code within 8 bits) is a C14 obligation",
+    assumptions=["standard-mode header assembly in decode_picture not proved (resource limit) - native witness harness only", "reader by contract (A-READER)", "A-BITFLAGS models cross-checked by Kani"],
 )
 PROPS["C07"] = dict(
     level="proof",
